@@ -499,6 +499,75 @@ theorem end_to_end (cfg : Sshd.Cfg) (f : Option Nat) (c : AP.Cfg) (todo : List (
   rw [hlog] at ho
   simpa [loginOf] using ho
 
+/-! ### the sshd pipeline's own events: each written once, in the order of the records -/
+
+def sshdIn (out : List Item) : List Ev :=
+  out.filterMap fun x => match x with | .sshd e => some e | _ => none
+
+def eventsOf (cfg : Sshd.Cfg) (done : List (Str × Str × Bool × Bool)) : List Ev :=
+  done.flatMap fun r => written (Sshd.process cfg r.1 r.2.1 r.2.2.1 (if r.2.2.2 then .cancel else .ready)).effs
+
+theorem sshdIn_append (a b : List Item) : sshdIn (a ++ b) = sshdIn a ++ sshdIn b := by
+  simp [sshdIn, List.filterMap_append]
+
+theorem sshdIn_actions (l : List Tr.Emitted) : sshdIn (l.map .action) = [] := by
+  induction l with
+  | nil => rfl
+  | cons a t ih => simpa [sshdIn] using ih
+
+theorem sshdIn_sshd (l : List Ev) : sshdIn (l.map .sshd) = l := by
+  induction l with
+  | nil => rfl
+  | cons a t ih => simp only [List.map_cons, sshdIn, List.filterMap_cons]; congr 1
+
+theorem apStep_sshdIn (f : Option Nat) (c : AP.Cfg) (st : Dm.St) (i : AP.In) (h : Lift f st.handed st.ap) :
+    sshdIn (apStep c st i).out = sshdIn st.out ∧ (apStep c st i).done = st.done := by
+  obtain ⟨_, new, _, hi⟩ := apStep_lift f c st i st.handed h
+  exact ⟨by rw [hi, sshdIn_append, sshdIn_actions, List.append_nil], rfl⟩
+
+/-- **Every event of the sshd pipeline is written exactly once, in the order of the records of the
+pipe**: the UserLogin events in the output are, for every schedule, the events written while
+processing the records consumed so far (one per record that produces an event — C11/C06), in order. -/
+theorem sshd_events_once (cfg : Sshd.Cfg) (f : Option Nat) (c : AP.Cfg) (st : Dm.St) (sched : List Act)
+    (hk : K cfg f st) (h0 : sshdIn st.out = eventsOf cfg st.done) :
+    sshdIn (Dm.run cfg c st sched).out = eventsOf cfg (Dm.run cfg c st sched).done := by
+  induction sched generalizing st with
+  | nil => exact h0
+  | cons a rest ih =>
+    apply ih (Dm.step cfg c st a) (k_step cfg f c st a hk)
+    cases a with
+    | sshdLine cancelled =>
+      simp only [Dm.step]
+      split
+      · exact h0
+      · split
+        · exact h0
+        · simp only [sshdIn_append, sshdIn_sshd, eventsOf, List.flatMap_append, List.flatMap_cons,
+            List.flatMap_nil, List.append_nil]
+          rw [h0]; rfl
+    | handoff =>
+      simp only [Dm.step]
+      split
+      · exact h0
+      · rename_i l _
+        split
+        · exact h0
+        · obtain ⟨h1, h2⟩ := apStep_sshdIn f c st (.login l) hk.lift
+          show sshdIn (apStep c st (.login l)).out = eventsOf cfg (apStep c st (.login l)).done
+          rw [h1, h2]; exact h0
+    | sshdCancel => exact h0
+    | audit =>
+      simp only [Dm.step]
+      split
+      · exact h0
+      · split
+        · exact h0
+        · exact h0
+        · rename_i i _ _ _
+          obtain ⟨h1, h2⟩ := apStep_sshdIn f c st i hk.lift
+          show sshdIn (apStep c st i).out = eventsOf cfg (apStep c st i).done
+          rw [h1, h2]; exact h0
+
 /-! ### a concrete run (the statement is not vacuous) -/
 
 def demoCfg : Sshd.Cfg := ⟨"node-1".toList, "0123".toList⟩
